@@ -1,6 +1,7 @@
 """C04 — causality: the single-layer matrix is Volterra-structured and never negative."""
 import contextlib
 import io
+import math
 from fractions import Fraction as F
 
 import numpy as np
@@ -17,16 +18,27 @@ RULE = ('correspondence (exact, Q numbers with rational stand-in special functio
         'be the same rationals, in particular literally zero exactly when the model says zero. search (floats, real '
         'meshes on all curves): acausal => == 0 exactly on bilform, bilform_matrix (all paths), evaluate, '
         'evaluate_exact, potential, t equal to the start included; causal => >= -1e-15*sqrt(D_i D_j) and > 0 when the '
-        'reference exceeds 1e-250; block lower-triangular matrix with rows = test. non-trivial = acausal-touching or '
+        'reference exceeds 1e-250; evaluate, evaluate_exact, potential at times after the start of the trial element (just after the '
+        'start / the end, inside, far later) and points on, at the ends of, near and far from the element: >= -1e-15*sqrt(t - t0), '
+        'and > 0 when |x-y|^2/(4(t-t0)) < 300 on the element; block lower-triangular matrix with rows = test. non-trivial = acausal-touching or '
         'causal pair; distinct = distinct request.')
 TRUSTED = [
     'Lean 4.33 kernel; axioms propext, Classical.choice, Quot.sound only',
     'translate/formulas.py (validated on every run by exact execution of the real functions with stand-ins)',
     'hand-written model lean/Stbem/Model/SingleLayer.lean tied by exact correspondence (harness/sllib.py, qnum.py) and, for its '
     'control flow, by Props/PanelsTie.lean to Gen/Panels.lean which translate/panels.py regenerates from the source on every run',
-    'positivity in binary64 (cancellation in the four-term formula) is not modelled: search only',
+    'sign (Props/C04Sign.lean): proved in exact arithmetic for the generated time kernels over R and for the quadrature sums '
+    'of the model (bilform quadrature path, evaluate, potential); positivity in binary64 (cancellation in the four-term '
+    'formula) and the sign of the closed-form path (pw_exact, evaluate_exact: erf) are not modelled: search only',
 ]
-ASSUMPTIONS = ['exact arithmetic; special functions are parameters']
+ASSUMPTIONS = ['exact arithmetic; special functions are parameters',
+               'sign theorems: Ei\' x = e^x/x (x<0), Ei -> 0 at -oo, exp = Real.exp, FPI_INV > 0 (all true; satisfied by the Lean model '
+               'modelT built from the improper integral of e^t/t); rules with weights >= 0 and nodes in (0,1) (checked on the real '
+               'rule objects); the parametrisation maps distinct parameters strictly inside the two elements to distinct points '
+               '(simple curves); evaluate: the 1e-10-thin strips inside the element next to its end points are excluded']
+# the closed-form pointwise evaluation loses its (positive) value to cancellation far from the element at short times; the
+# clause 'result > 0 whenever the reference exceeds 1e-250' of the property is checked for it too (known finding)
+STRICT_POSITIVE_EVALUATE_EXACT = True
 
 
 def translate_formulas(res):
@@ -56,7 +68,29 @@ def translate(res):
     translate_panels(res)
 
 
+def check_rule_hypotheses(res):
+    """The sign theorems (Props/C04Sign.lean: bilform_quad_nonneg, evaluate_nonneg, potential_nonneg and their real
+    twins) assume `PosRule1` / `SPosRule1` for the 1-D rules: weights > 0 and nodes strictly inside (0,1). Checked here on
+    the rule objects the real operator constructs (default quad_order, and the orders used by example.py)."""
+    from src.mesh import MeshParametrized
+    from src.parametrization import UnitSquare
+    from src.single_layer import SingleLayerOperator
+    with contextlib.redirect_stdout(io.StringIO()):
+        mesh = MeshParametrized(UnitSquare(), initial_time_mesh=[0, 1])
+    for order in (12, 5, 7):
+        with contextlib.redirect_stdout(io.StringIO()):
+            SL = SingleLayerOperator(mesh, quad_order=order)
+        for name in ('log_scheme', 'log_scheme_m', 'gauss_scheme'):
+            sch = getattr(SL, name)
+            pts, wts = np.asarray(sch.points, dtype=float), np.asarray(sch.weights, dtype=float)
+            res.count(('rule-hypothesis', order, name), True, n=len(pts))
+            if len(pts) == 0 or not (np.all(pts > 0) and np.all(pts < 1) and np.all(wts > 0)):
+                res.broken_obligation('C04 hypothesis PosRule1 fails on the real rule %s (quad_order=%d)' % (name, order),
+                                      'points in (0,1): %s, weights > 0: %s, n=%d' % (bool(np.all((pts > 0) & (pts < 1))), bool(np.all(wts > 0)), len(pts)))
+
+
 def correspond(res, tier):
+    check_rule_hypotheses(res)
     corr_bilform(res, tier, 'C04', curves=('unitsquare', 'interval'))
     corr_mpcol(res, tier, 'C04m')
     # zero structure of the pointwise evaluations, exactly
@@ -96,7 +130,36 @@ def correspond(res, tier):
                 return
 
 
+def corpus_evaluate_exact(res):
+    """Minimised past failure (kept as a corpus case, replayed first): the closed-form pointwise evaluation is negative
+    (-1.9e-19) where the exact value is positive (~5e-21, certainly > 1e-40): UnitSquare, two uniform refinements, trial
+    element t in [0, 1/4], x in [0, 1/4], t = 2^-10, point x = 5/8 on the same side."""
+    from src.mesh import MeshParametrized
+    from src.parametrization import UnitSquare
+    from src.single_layer import SingleLayerOperator
+    with contextlib.redirect_stdout(io.StringIO()):
+        mesh = MeshParametrized(UnitSquare(), initial_time_mesh=[0, 1])
+        mesh.uniform_refine()
+        mesh.uniform_refine()
+        SL = SingleLayerOperator(mesh, pw_exact=True)
+    for tr in mesh.leaf_elements:
+        if tuple(map(float, tr.time_interval)) == (0.0, 0.25) and tuple(map(float, tr.space_interval)) == (0.0, 0.25):
+            t, xs = 2.0**-10, 0.625
+            v = float(SL.evaluate_exact(tr, t, xs))
+            res.count(('ptsign', 'evaluate_exact', 'corpus', t, xs), True)
+            zmax, dmax = t, 0.625
+            ref_lb = (zmax / 2) * 0.25 * math.exp(-dmax * dmax / (2 * zmax)) / (4 * math.pi * zmax)
+            if v < -1e-15 * math.sqrt(t):
+                res.violation('C04:evaluate_exact-negative', dict(curve='UnitSquare', trial=describe(tr), t=t, x=xs, value=v))
+            elif STRICT_POSITIVE_EVALUATE_EXACT and ref_lb > 1e-250 and not v > 0:
+                res.violation('C04:evaluate_exact-not-positive', dict(curve='UnitSquare', trial=describe(tr), t=t, x=xs, value=v,
+                              reference_lower_bound=ref_lb, corpus=True))
+            return
+    res.broken_obligation('C04 corpus case: element not found', 'UnitSquare after two uniform refinements has no leaf t=[0,1/4] x=[0,1/4]')
+
+
 def search(res, tier, boost=False):
+    corpus_evaluate_exact(res)
     rng = seed_rng(res.seed, 'C04s')
     curves = ['UnitSquare', 'Circle', 'LShape', 'UnitInterval', 'PiSquare']
     n_mesh = (2 if tier == 'quick' else 10) * (2 if boost else 1)
@@ -199,3 +262,64 @@ def search(res, tier, boost=False):
                     res.violation('C04:potential-acausal-nonzero', dict(curve=cname, trial=describe(tr), t=float(t)))
                 if cname != 'Circle' and SL.evaluate_exact(tr, t, float(tr.space_interval[0])) != 0:
                     res.violation('C04:evaluate_exact-acausal-nonzero', dict(curve=cname, trial=describe(tr), t=float(t)))
+        # pointwise sign: for t later than the start of the trial element evaluate, evaluate_exact and potential are
+        # never negative beyond rounding (>= -1e-15*sqrt(t - t0), the size of the terms of the closed forms), and strictly
+        # positive when the exact value certainly exceeds 1e-250: the exact value is the integral of the heat kernel
+        # G(t-s, |x-y|) >= exp(-dmax^2/(2 zmax))/(4 pi zmax) over s in [t0, t0+delta], y in [x0, x1] with zmax = t - t0,
+        # delta = min(zmax/2, t1 - t0), dmax >= every distance from x to the element -- a rigorous lower bound
+        L = float(gamma.gamma_length)
+        seen = res.__dict__.setdefault('_c04_sign_seen', {})
+
+        def flag(key, data):
+            # at most three reports per kind and run: the key names the call site, the data the failing input
+            seen[key] = seen.get(key, 0) + 1
+            if seen[key] <= 3:
+                res.violation(key, data)
+
+        def lower_bound(dmax, t, t0, t1, hx):
+            zmax = t - t0
+            delta = min(zmax / 2, t1 - t0)
+            e = dmax * dmax / (2 * zmax)
+            return 0.0 if e > 650 else delta * hx * math.exp(-e) / (4 * math.pi * zmax)
+
+        for tr in rng.sample(elems, min(6 if tier == 'quick' else 10, len(elems))):
+            t0, t1 = float(tr.time_interval[0]), float(tr.time_interval[1])
+            x0, x1 = float(tr.space_interval[0]), float(tr.space_interval[1])
+            ht = t1 - t0
+            k_piece = max(k for k in range(len(gamma.pw_start) - 1) if float(gamma.pw_start[k]) <= x0)
+            p0, p1 = float(gamma.pw_start[k_piece]), float(gamma.pw_start[k_piece + 1])
+            ys = gamma.eval(np.array([x0, x1, 0.5 * (x0 + x1)]))
+            for t in (t0 + ht * 2.0**-20, t0 + rng.random() * ht, t1, t1 + ht * 2.0**-20, t1 + rng.random() * ht, t1 + 8 * ht + rng.random()):
+                tol = 1e-15 * math.sqrt(t - t0)
+                # for t > t1 the values are differences of two Ei terms: ask for positivity only if their arguments differ by 1e-3 relative
+                safe_gap = t <= t1 or (t - t0) >= 1.001 * (t - t1)
+                for xh in (x0, x1, 0.5 * (x0 + x1), x0 + rng.random() * (x1 - x0), rng.uniform(0, L), rng.uniform(0, L), 0.0, L):
+                    x = gamma.eval(np.array([xh])).reshape(2, 1)
+                    # upper bound of the distance from x to a point of the element: distance to a sampled point + element length
+                    dmax = float(np.max(np.sqrt(np.sum((ys - x)**2, axis=0)))) + (x1 - x0)
+                    ref_lb = lower_bound(dmax, t, t0, t1, x1 - x0)
+                    v = float(SL.evaluate(tr, t, xh, x))
+                    res.count(('ptsign', 'evaluate', cname, mi, t, xh), True)
+                    if v < -tol or math.isnan(v):
+                        flag('C04:evaluate-negative', dict(curve=cname, trial=describe(tr), t=float(t), x_hat=float(xh), value=v, tol=tol))
+                    elif ref_lb > 1e-250 and safe_gap and not v > 0:
+                        flag('C04:evaluate-not-positive', dict(curve=cname, trial=describe(tr), t=float(t), x_hat=float(xh), value=v, reference_lower_bound=ref_lb))
+                    xo = x + np.array([[0.3], [0.3]]) * (1 if rng.random() < 0.5 else -0.11)
+                    dmo = float(np.max(np.sqrt(np.sum((ys - xo)**2, axis=0)))) + (x1 - x0)
+                    ref_lb = lower_bound(dmo, t, t0, t1, x1 - x0)
+                    v = float(SL.potential(tr, t, xo))
+                    res.count(('ptsign', 'potential', cname, mi, t, xh), True)
+                    if v < -tol or math.isnan(v):
+                        flag('C04:potential-negative', dict(curve=cname, trial=describe(tr), t=float(t), x=[float(xo[0, 0]), float(xo[1, 0])], value=v, tol=tol))
+                    elif ref_lb > 1e-250 and safe_gap and not v > 0:
+                        flag('C04:potential-not-positive', dict(curve=cname, trial=describe(tr), t=float(t), x=[float(xo[0, 0]), float(xo[1, 0])], value=v, reference_lower_bound=ref_lb))
+                if cname != 'Circle':
+                    for xs in (x0, x1, 0.5 * (x0 + x1), x0 + rng.random() * (x1 - x0), p0, p1, rng.uniform(p0, p1), rng.uniform(p0, p1)):
+                        v = SL.evaluate_exact(tr, t, float(xs))
+                        res.count(('ptsign', 'evaluate_exact', cname, mi, t, xs), True)
+                        ref_lb = lower_bound(max(abs(xs - x0), abs(xs - x1)), t, t0, t1, x1 - x0)
+                        if v is None or math.isnan(float(v)) or float(v) < -tol:
+                            flag('C04:evaluate_exact-negative', dict(curve=cname, trial=describe(tr), t=float(t), x=float(xs), value=None if v is None else float(v), tol=tol))
+                        elif STRICT_POSITIVE_EVALUATE_EXACT and ref_lb > 1e-250 and safe_gap and not float(v) > 0:
+                            flag('C04:evaluate_exact-not-positive', dict(curve=cname, trial=describe(tr), t=float(t), x=float(xs), value=float(v), reference_lower_bound=ref_lb,
+                                          note='closed form: erf(h/2sqrt(z)) - erf(k/2sqrt(z)) is 0 in binary64 once both arguments exceed ~5.9, the remaining -h*Ei(..)+k*Ei(..) has the wrong sign'))
